@@ -195,6 +195,24 @@ def describe_model(m):
 # ------------------------------------------------------------------------------------------------------------
 # worker: runs under /venv/bin/python with NumPy and the generated packages on sys.path
 # ------------------------------------------------------------------------------------------------------------
+def same_builtin(a, b):
+    """Deep equality of two builtin trees (NaN equals NaN; bool is not int; -0.0 is not 0.0)."""
+    if type(a) is not type(b):
+        return False
+    if isinstance(a, dict):
+        return list(a.keys()) == list(b.keys()) and all(same_builtin(a[k], b[k]) for k in a)
+    if isinstance(a, (list, tuple)):
+        return len(a) == len(b) and all(same_builtin(x, y) for x, y in zip(a, b))
+    if isinstance(a, float):
+        return (a != a and b != b) or (a == b and math.copysign(1.0, a) == math.copysign(1.0, b))
+    if hasattr(a, "dtype") and hasattr(a, "tolist"):
+        return a.dtype == b.dtype and same_builtin(a.tolist(), b.tolist())
+    try:
+        return bool(a == b)
+    except Exception:  # noqa
+        return a is b
+
+
 class Worker:
     def __init__(self, schema):
         import importlib
@@ -239,6 +257,14 @@ class Worker:
                 import array
                 return array.array(self.ARRAY_CODES[t[1]], a.tolist())
             return memoryview(a)
+        if fl in ("be", "strided", "ro") and k == "a" and t[1] != "O":
+            a = self.real(t, ty)
+            if fl == "be":                 # same values, explicit big-endian byte order (dtype '>u2', '>f4', ...)
+                return a.astype(a.dtype.newbyteorder(">"))
+            if fl == "strided":            # a non-contiguous view
+                return np.repeat(a, 2)[::2]
+            a.setflags(write=False)        # a read-only array
+            return a
         if k == "o" and t[1] == 999999:
             return (i for i in range(3))   # a foreign object: a generator
         if fl and fl.startswith("np:") and k in ("i", "b", "f", "inf", "nan"):
@@ -314,6 +340,8 @@ class Worker:
             return tl([self.enc(x) for x in v])
         if isinstance(v, np.ndarray):
             dt = self.dtname.get(v.dtype, "X" + str(v.dtype))
+            if dt in self.dt and (not v.dtype.isnative or v.dtype.str != np.dtype(self.dt[dt]).str):
+                dt = "X" + v.dtype.str     # representation is part of the type: the storage dtype in native byte order
             if v.ndim != 1:
                 dt = f"ND{v.ndim}{dt}"
             return ta(dt, [self.enc(x) for x in v.flatten()])
@@ -403,9 +431,11 @@ class Worker:
             cls = self.classes[case["c"]]
             ty = {"k": "C", "c": case["c"]}
             d = cls() if case["d"] is None else self.real(parse(case["d"]))
+            import copy
             src = self.real(parse(case["s"]), ty, fl=case.get("fl"))
+            before = copy.deepcopy(src)
             r, v, m = self.attempt(lambda: ns.update_from_builtin(d, src))
-            return {"r": r, "m": m, "v": self.enc(v) if r == "ok" else "", "same": v is d}
+            return {"r": r, "m": m, "v": self.enc(v) if r == "ok" else "", "same": v is d, "src_kept": same_builtin(before, src)}
         if k == "alias":
             import importlib
             mod = importlib.import_module(case["mod"])
@@ -494,11 +524,20 @@ class Worker:
             out["json_ok"] = True
         except Exception as e:  # noqa
             out["json_ok"] = f"{type(e).__name__}: {e}"
+        import copy
+        before = copy.deepcopy(b)
         r2, o2, m2 = self.attempt(lambda: ns.update_from_builtin(cls(), b))
         out["ufb_r"], out["ufb_m"] = r2, m2
+        out["src_kept"] = same_builtin(before, b)      # the conversion must not modify the built-in form it reads
         if r2 == "ok":
             out["ufb"] = self.enc(o2)
             out["ser_rt"] = self.ser(o2)
+            # the SAME built-in object converted a second time (the conversion is a function of the source value)
+            r3, o3, m3 = self.attempt(lambda: ns.update_from_builtin(cls(), b))
+            out["ufb2_r"], out["ufb2_m"] = r3, m3
+            if r3 == "ok":
+                out["ufb2"] = self.enc(o3)
+                out["ser_rt2"] = self.ser(o3)
         return out
 
 
@@ -1143,8 +1182,15 @@ class Gen:
             if not (e["k"] == "I" and not e["s"] and e["w"] <= 8):
                 out.append(ts(bytes(rng.choice(b"0123456789") for _ in range(n))))
                 out.append(ts(bytes(rng.choice(b"ghjklmopqrsuvwxz") for _ in range(n))))
+        # representation: the right item type in big-endian byte order, a strided view, a read-only array
+        rep_cands = []
+        if e["k"] != "C":
+            for n in lens:
+                out.append((ta(dt, [self.elem(e, weak=False) for _ in range(n)]), "be"))
+            rep_cands = [(ta(dt, [self.elem(e, weak=False) for _ in range(cap if fx or cap <= 64 else 7)]), f) for f in ("be", "strided", "ro")]
+            out += rep_cands
         sweep = []
-        flavours = [None, "mv", "arr"]
+        flavours = [None, "mv", "arr", "be", "strided", "ro"]
         for di, d in enumerate(ALL_DT):
             size = 1 if d == "b" else int(d[1:]) // 8
             ns = sorted({cap, cap + 1, max(cap - 1, 0), cap // size, cap // size + 1, -(-cap // size), (cap + 1) // size})
@@ -1155,10 +1201,10 @@ class Gen:
                     elems = [tf(float(rng.choice([0, 1]))) for _ in range(n)]
                 else:
                     elems = [ti(rng.choice([0, 1])) for _ in range(n)]
-                sweep.append((ta(d, elems), flavours[(di + ni + rng.randrange(3)) % 3]))
+                sweep.append((ta(d, elems), flavours[(di + ni + rng.randrange(6)) % 6]))
         out += sweep if full else rng.sample(sweep, min(len(sweep), 10))
         if not full and len(out) > 40:
-            out = rng.sample(out, 40)
+            out = rng.sample(out, 40) + rep_cands
         return out
 
     def cands(self, ty, full=True):
@@ -1564,6 +1610,13 @@ class NSCheck:
         elif serializable and rt["ser_rt"] != rt["ser_o"]:
             ctx.fail({"kind": "builtin-roundtrip", "case": "bytes-differ"},
                      "serialize(update_from_builtin(C(), to_builtin(o))) != serialize(o)", rp())
+        if rt.get("src_kept") is False:
+            ctx.fail({"kind": "builtin-roundtrip", "case": "source-modified"},
+                     "update_from_builtin modified the built-in form it was given (deep comparison before/after)", rp())
+        if rt["ufb_r"] == "ok" and (rt.get("ufb2_r") != "ok" or rt.get("ufb2") != rt["ufb"] or rt.get("ser_rt2") != rt["ser_rt"]):
+            ctx.fail({"kind": "builtin-roundtrip", "case": "second-conversion-differs"},
+                     "converting the same built-in object a second time gives another object: " + str(rt.get("ufb2_m") or rt.get("ufb2", ""))[:120], rp())
+        ctx.count("roundtrip-source-reused")
         if not deep_ok(sch, {"k": "C", "c": case["c"]}, parse(otoks)):
             return []   # duck typing on foreign elements is outside the model
         ct = sch.ctokens(case["c"])
@@ -2047,6 +2100,9 @@ class NSCheck:
                 ctx.disagree("ufb-mutated", self.replay_of(case), ans[:400], {"r": r["r"], "v": r["v"][:400], "m": r["m"]})
             if r["r"] == "ok" and sch.classes[case["c"]]["union"]:
                 self.judge_union_state(case, r["v"], None, "update_from_builtin")
+            if r.get("src_kept") is False:
+                ctx.fail({"kind": "builtin-roundtrip", "case": "source-modified"},
+                         "update_from_builtin modified the source it was given (deep comparison before/after)", self.replay_of(case, {"observed": r}))
 
 
 def unparse(t):
@@ -2243,6 +2299,8 @@ def replay(ctx, path):
     elif k == "ufb":
         if ns.schema.classes[case["c"]]["union"] and res[0]["r"] == "ok":
             chk.judge_union_state(case, res[0]["v"], None, "update_from_builtin")
+        if res[0].get("src_kept") is False:
+            ctx.fail({"kind": "builtin-roundtrip", "case": "source-modified"}, "update_from_builtin modified its source", {})
     n = len(ctx.failures)
     for f in ctx.failures:
         print("FAILS:", f["key"], f["what"])
